@@ -402,6 +402,7 @@ FACTORS = [
     ("stderr", ["stringio", "encodedfile"]),
     ("progress", [False, True]),
     ("resample", ["mult", "syst"]),
+    ("blob_form", [None, "nan", "vector"]),  # with eval=blobs: scalar tag | NaN in half of the space | a vector per particle
 ]
 
 
@@ -420,6 +421,8 @@ def plan(ctx):
                 if not th and driver == "sample" and (clu or ev != "scalar"):
                     continue
                 crash.append({"kind": "crash_run", "cfg": dict(clustering=clu, eval=ev, n_particles=16, n_total=64), "driver": driver, "base": ctx.seed, "thorough": th})
+    crash.append({"kind": "crash", "cfg": dict(clustering=False, eval="blobs", blob_form="nan", n_particles=16), "api": "sampler", "base": ctx.seed, "thorough": th})
+    crash.append({"kind": "crash_run", "cfg": dict(clustering=True, eval="blobs", blob_form="nan", n_particles=16, n_total=64), "driver": "run", "base": ctx.seed, "thorough": th})
     ctx.explore("crash-points", crash)
     strength = 3 if th else 2
     rows = lattice.covering_array(FACTORS, strength=strength, seed=ctx.seed)
